@@ -788,7 +788,7 @@ class Sim:
         try:
             names, cfg, txt, run, cfgp = oracle_batch.read_batch(self.root, script)
         except Exception as e:
-            self.viol("C07", "unreadable-batch", f"sbatch {script}: {e!r}")
+            self.viol(self.scen.get("script_prop", "C07"), "unreadable-batch", f"sbatch {script}: the script handed over does not lead to a run script with a run-jobs line and a batch configuration: {e!r}")
             return self.reply(a, err="sbatch: error\n", rc=1)
         rows = self.rows_on_disk()
         finished = set(rows)
